@@ -304,6 +304,15 @@ func runC12(rc *RunCtx, variant string) *simkit.Violation {
 	if variant != "open" {
 		return nil // the directed scenarios only exist to reproduce the recorded findings
 	}
+	// (a'') a diamond recorded as done names a bundle that exists (wherever the commit that recorded it stopped)
+	if o := d.VMet.Peek(model.GetArchivePathToFinalDiamond("r1", did)); o != nil {
+		var dd model.DiamondDescriptor
+		if yaml.Unmarshal(o.Data, &dd) == nil && dd.State == model.DiamondDone {
+			if dd.BundleID == "" || d.Meta.Peek(model.GetArchivePathToBundle("r1", dd.BundleID)) == nil {
+				return Viol(prop, "diamond-done-without-bundle", "Commit", did, "the diamond is recorded as done with bundle %q, which does not exist: it can neither be committed again nor downloaded", dd.BundleID)
+			}
+		}
+	}
 	// (a') a commit that reports success is THE commit of the diamond: the terminal descriptor records "done" with its bundle
 	for _, c := range commits {
 		if c.client.Dead || !c.task.Done || c.task.Err != nil {
